@@ -686,8 +686,16 @@ def run(tier, seed, replay=None):
             check_box_alone(rep, cases, special, g.inputs(sm))
             if kind != "sub" and sm == sn:               # naturality of copy / discard for that box
                 args = g.inputs(sm)
-                for how, dd in (("copy", special >> Copy(sm)), ("copy'", Copy(sm) >> special @ special),
-                                ("discard", special >> Discard(sm))):
+                for how, mk in (("copy", lambda: special >> Copy(sm)),
+                                ("copy'", lambda: Copy(sm) >> special @ special),
+                                ("discard", lambda: special >> Discard(sm))):
+                    try:
+                        dd = mk()
+                    except Exception as exc:
+                        rep.fail("composition_raises:" + how,
+                                 dict(box=safe_repr(special, 200), wires=sm),
+                                 "composing a box with Copy/Discard of its own arity raised %r" % (exc,))
+                        continue
                     check_call(rep, cases, dd, args, "hier:" + how, "clean", stream="hier")
         cases.flush(drv)
 
